@@ -20,7 +20,7 @@ from props import extlib
 
 # the image-level theorem files and their theorems (for the COQ_PROPS / THEOREMS of the property plugins)
 COQ_PROPS = ['Props/C03img.v', 'Props/C04img.v', 'Props/C05img.v', 'Props/C07img.v']
-THEOREMS = {'Props/C03img.v': ['C03img_data', 'C03img_affine', 'C03img_slice', 'C03img_refuse', 'C03img_never_crashes',
+THEOREMS = {'Props/C03img.v': ['C03img_data', 'C03img_affine', 'C03img_slice', 'C03img_refuse', 'C03img_refuse_exists', 'C03img_never_crashes',
                                'C03img_dim_argument', 'C03img_step_test'],
             'Props/C04img.v': ['C04img_pieces', 'C04img_default_dim', 'C04img_ext_shape'],
             'Props/C05img.v': ['C05img_split_merge', 'C05img_merge_split'],
